@@ -535,10 +535,19 @@ def c01(rep, tier):
             E.check(strip_casts(cst).get('v') == 0 and is_call(src, 'FunctionGenState::fetchVariableRegister') and 'c->tok' in show(src) and
                     m.same_var(ev.e['args'][0], {'k': 'ref', 'd': dvf['params'][2]['d']}), 'dispatchValue/NAME', 'Add(tgt, reg(name), 0)', 'variable copy lowered as %s' % show(ev.e), W(m, dvf, ev.e))
             continue
+        def showc(c):
+            # text of a condition with named string constants spelled out
+            extra = []
+            for x in walk_expr(c):
+                if x.get('k') == 'ref' and x.get('dk') == 'global':
+                    gl = m.facts.globals.get(x.get('q'))
+                    if gl is not None and gl.get('const_str') is not None:
+                        extra.append(gl['const_str'])
+            return show(c) + ' ' + ' '.join(extra)
         for name in ('__INC__', '__DEC__'):
-            if guarded(g, ev, lambda c, name=name: (c.get('k') in ('call', 'bin') and c.get('op') == '==' and name in show(c)), True):
+            if guarded(g, ev, lambda c, name=name: (c.get('k') in ('call', 'bin') and c.get('op') == '==' and name in showc(c)), True):
                 signs[name] = ('-' if neg else '+', ev)
-            elif guarded(g, ev, lambda c, name=name: (c.get('k') in ('call', 'bin') and c.get('op') == '==' and name in show(c)), False) and name == '__INC__':
+            elif guarded(g, ev, lambda c, name=name: (c.get('k') in ('call', 'bin') and c.get('op') == '==' and name in showc(c)), False) and name == '__INC__':
                 signs.setdefault('__DEC__', ('-' if neg else '+', ev))
     if not signs:
         # Add(tgt, arg0, name == "__INC__" ? c : -c)
@@ -546,7 +555,7 @@ def c01(rep, tier):
             cst = m.origin(dvf, ev.e['args'][2])
             cst = strip_casts(cst) if cst is not None else None
             if cst is not None and cst.get('k') == 'cond':
-                cnd = show(cst['c'])
+                cnd = showc(cst['c']) if 'showc' in dir() else show(cst['c'])
                 def sign_of(x):
                     x = strip_casts(x)
                     return '-' if (x.get('k') == 'un' and x['op'] == '-') else '+'
